@@ -1542,7 +1542,7 @@ pub fn property() -> Property {
         ],
         panic_clause: "C11.d-nopanic",
         livelock_clause: "C11.d-livelock",
-        rule: "one run = one seeded execution of writer → simulated file → reader: record list, writer/reader constructor and capacity, write/read fragmentation regime, EINTR, storage event (identity, CRLF, foreign re-layout, cut offset, corruption) all drawn from one choice stream. Non-trivial = at least one record (or one garbage byte) AND at least one fault or non-default knob actually fired. Distinct = distinct schedule signature: hash of scenario, storage event and the sequence of (call kind, requested-size class, outcome class) of every endpoint call; record contents are NOT part of the signature.",
+        rule: "one run = one seeded execution of writer → simulated file → reader: record list, writer/reader constructor and capacity, write/read fragmentation regime, EINTR, storage event (identity, CRLF, foreign re-layout, cut offset, corruption) all drawn from one choice stream. Non-trivial = at least one record (or one garbage byte) AND at least one fault or non-default knob actually fired. Distinct = distinct schedule signature: hash of scenario, storage event and the sequence of (call kind, requested-size class, outcome class) of every endpoint call; record contents are NOT part of the signature. Sweep scenarios play every cut offset of one small file (fa/fq-cut-sweep) and every partition of one tiny file into read() chunks and of the writer's output into write() chunks (fx-partitions); one sweep counts as one run.",
         real: &["bio::io::fasta::{Reader, Records, Writer, Record (incl. Display)}", "bio::io::fastq::{Reader, Records, Writer, Record (incl. check, Display)}", "bio::io::fastx::{EitherRecords, get_kind, get_kind_seek}", "std::io::{BufReader, BufWriter, Chain, Cursor, read_line, read_exact, write_all}"],
         stubs: &["the OS file/pipe under the writer (SimWrite: short writes, EINTR)", "the OS file/pipe under the reader (SimRead/SimBufRead/SimSeekRead: short reads, EINTR)", "the foreign tool that re-wraps a file or converts it to CRLF (harness serialiser)", "producer crash / media fault (cut, byte corruption applied to the stored image)"],
         assumptions: &[
